@@ -26,6 +26,7 @@ inductive PyErr where
   | struct_                      -- struct.error        (internal; needs a ≥ 4 GiB header)
   | importErr                    -- ImportError (missing optional dependency)
   | os                           -- OSError (file system)
+  | eof                          -- EOFError (`input()` at end of input; interactive editor only)
   deriving DecidableEq, Repr, Inhabited
 
 /-- the library's own hierarchy `CCT_Error` -/
@@ -42,7 +43,7 @@ def PyErr.name : PyErr → String
   | .arg => "ArgError" | .signature => "SignatureError" | .metadataVerification => "MetadataVerificationError"
   | .unknownRole => "UnknownRoleError" | .invalidSignature => "InvalidSignature" | .key => "KeyError"
   | .attribute => "AttributeError" | .overflow => "OverflowError" | .assertion => "AssertionError"
-  | .struct_ => "StructError" | .importErr => "ImportError" | .os => "OSError"
+  | .struct_ => "StructError" | .importErr => "ImportError" | .os => "OSError" | .eof => "EOFError"
 
 abbrev Res (α : Type) := Except PyErr α
 
